@@ -134,7 +134,9 @@ func sloppyLen(m dsl.Matcher) {
 //doc:before  *tmp = *x; *x = *y; *y = *tmp
 //doc:after   *x, *y = *y, *x
 func valSwap(m dsl.Matcher) {
-	m.Match(`$tmp := $y; $y = $x; $x = $tmp`).Where(m["x"].Pure && m["y"].Pure).
+	// The parallel assignment evaluates both operands before it stores: a[i] and a[a[i]] are not independent.
+	m.Match(`$tmp := $y; $y = $x; $x = $tmp`).
+		Where(m["x"].Pure && m["y"].Pure && !m["x"].Contains(`$y`) && !m["y"].Contains(`$x`)).
 		Report("can re-write as `$y, $x = $x, $y`")
 }
 
